@@ -58,7 +58,7 @@ MANIFEST = dict(
               "summaries",
 )
 FLOORS = {"C04.1": 4, "C04.2": 4, "C04.3": 8, "C04.4": 3, "C04.5": 2,
-          "C04.6": 14, "C04.7": 3, "C04.8": 2}
+          "C04.6": 14, "C04.7": 3, "C04.8": 2, "C04.9": 4}
 
 ALIGN = "evo.core.trajectory.PosePath3D.align"
 ORIGIN = "evo.core.trajectory.PosePath3D.align_origin"
@@ -109,15 +109,21 @@ def check(ctx):
             for x in v.walk():
                 if x.op == "ite":
                     cands.extend(tm.atoms(x.args[0]))
+    sentinel = None
     for a in cands:
-        if a.op == "cmp" and npar in (a.args[1], a.args[2]) and any(
-                tm.is_const(z) and z.args[1] == -1
-                for z in (a.args[1], a.args[2])):
+        if a.op == "cmp" and a.args[0] in ("Eq", "NotEq", "Is", "IsNot") \
+                and npar in (a.args[1], a.args[2]) and any(
+                    tm.is_const(z) and (z.args[1] is None or
+                                        isinstance(z.args[1], int))
+                    for z in (a.args[1], a.args[2])):
             n_atom = a
+            sentinel = [z for z in (a.args[1], a.args[2])
+                        if tm.is_const(z)][0]
             break
-    ctx.require(n_atom is not None, "test of n against -1 not found in align "
-                "(unknown idiom)")
-    n_all_true = n_atom.args[0] == "Eq"   # atom true means n == -1
+    ctx.require(n_atom is not None, "test of n against its 'all poses' "
+                "marker not found in align (unknown idiom)")
+    n_all_true = n_atom.args[0] in ("Eq", "Is")  # atom true means n is "all"
+    _sentinel_agreement(ctx, prog, fa, sentinel)
 
     for cs, cos in itertools.product([False, True], repeat=2):
         for n_all in (True, False):
@@ -296,7 +302,7 @@ def check(ctx):
                f"{q.rsplit('.', 1)[1]} modifies the reference: {m[0]!r}",
                key=f"C04.5:{q.rsplit('.', 1)[1]}")
 
-    _umeyama_scale(ctx)
+    ctx.section(_umeyama_scale, ctx)
 
     # ------------------------------------------------------------- C04.6
     for fq in ("evo.main_ape.ape", "evo.main_rpe.rpe"):
@@ -444,6 +450,112 @@ def check(ctx):
                            f"applied sim3(r, t, s) of {fmt(U)}",
                            key=f"C04.6:{f.name}:umeyama:{al}:{cs}:{ao}",
                            stored=fmt(a_part))
+
+
+def _const_eval(t: T, env):
+    """value of a term under an assignment of leaf terms to Python values;
+    raises KeyError / ValueError when it is not a closed expression"""
+    while t.op == "named":
+        t = t.args[1]
+    if any(t is k for k in env):
+        return [v for k, v in env.items() if k is t][0]
+    if tm.is_const(t):
+        return t.args[1]
+    if t.op == "ite":
+        return _const_eval(t.args[1] if _const_eval(t.args[0], env)
+                           else t.args[2], env)
+    if t.op == "cmp":
+        l, r = _const_eval(t.args[1], env), _const_eval(t.args[2], env)
+        return {"Eq": l == r, "NotEq": l != r, "Is": l is r,
+                "IsNot": l is not r, "Lt": l < r, "LtE": l <= r,
+                "Gt": l > r, "GtE": l >= r}[t.args[0]]
+    if t.op == "not":
+        return not _const_eval(t.args[0], env)
+    if t.op == "unop" and t.args[0] == "Not":
+        return not _const_eval(t.args[1], env)
+    if t.op == "unop" and t.args[0] == "USub":
+        return -_const_eval(t.args[1], env)
+    raise ValueError(fmt(t))
+
+
+def _sentinel_agreement(ctx, prog, fa, sentinel: T):
+    """C04.9: 'determines it from the first n pose pairs only when n is
+    given'. PosePath3D.align marks 'all poses' with one particular value of
+    `n`; every command-line path must deliver exactly that value when the
+    user gave no --n_to_align (the parsers' default), otherwise the default
+    is taken literally as a slice bound (positions[:-1] drops the last
+    pair)."""
+    from ..lib import parser_arguments, sweep
+    import ast
+    S = sentinel.args[1]
+    dflt = fa.defaults().get("n")
+    try:
+        dv = ast.literal_eval(dflt) if dflt is not None else "<none>"
+    except Exception:
+        dv = "<expr>"
+    ctx.ob("C04.9", fa, dv == S and type(dv) is type(S),
+           f"align(): the default of `n` is its own 'all poses' marker "
+           f"({S!r})" if dv == S else
+           f"align(): default n={dv!r} but 'all poses' is recognised as "
+           f"{S!r}", key="C04.9:align-default")
+    results = sweep(prog, "plain")
+    for app, core in (("ape", "evo.main_ape.ape"), ("rpe", "evo.main_rpe.rpe"),
+                      ("traj", None)):
+        pa = [k for m, n_, o, k in parser_arguments(prog)
+              if m == f"evo.main_{app}_parser" and "--n_to_align" in o]
+        if len(pa) != 1 or "default" not in pa[0]:
+            ctx.undecidable("C04.9", fa, f"evo_{app}: --n_to_align default "
+                            f"not found")
+            continue
+        try:
+            cli = ast.literal_eval(pa[0]["default"])
+        except Exception:
+            ctx.undecidable("C04.9", fa, f"evo_{app}: non-literal default")
+            continue
+        A = tm.attr(tm.param("args"), "n_to_align")
+        env = {A: cli}
+        run = results[f"evo.main_{app}.run"]
+        chain = f"--n_to_align default {cli!r}"
+        try:
+            if core is not None:
+                ce = run.calls(core)
+                if len(ce) != 1:
+                    raise ValueError("core call not found")
+                passed = (ce[0].data["bound"] or {}).get("n_to_align")
+                fcore = prog.func(core)
+                if passed is None:
+                    d2 = fcore.defaults().get("n_to_align")
+                    v = ast.literal_eval(d2)
+                else:
+                    v = _const_eval(passed, env)
+                rc = results[core]
+                al = [e for e in rc.calls(ALIGN)]
+                if not al:
+                    raise ValueError("align call not found")
+                nb = (al[0].data["bound"] or {}).get("n")
+                got = S if nb is None and dv == S else _const_eval(
+                    nb, {tm.param("n_to_align"): v})
+                site = al[0]
+                chain += f" -> {core.rsplit('.', 1)[1]}(n_to_align={v!r})"
+            else:
+                al = [e for e in run.calls(ALIGN)]
+                if not al:
+                    raise ValueError("align call not found")
+                nb = (al[0].data["bound"] or {}).get("n")
+                got = dv if nb is None else _const_eval(nb, env)
+                site = al[0]
+        except (ValueError, KeyError, IndexError, TypeError) as e:
+            ctx.undecidable("C04.9", fa, f"evo_{app}: value of `n` for the "
+                            f"default --n_to_align not computable: {e}")
+            continue
+        ok = got == S and type(got) is type(S)
+        ctx.ob("C04.9", site, ok,
+               f"evo_{app}: {chain} reaches align as n={got!r}, its 'all "
+               f"poses' marker" if ok else
+               f"evo_{app}: {chain} reaches align as n={got!r}, but align "
+               f"treats only {S!r} as 'all poses': the value is used as a "
+               f"slice bound (first n pairs) although no n was given",
+               key=f"C04.9:{app}:default-reaches-sentinel")
 
 
 def _umeyama_scale(ctx):
